@@ -348,7 +348,13 @@ func (s *Subscriber) OnSyncFinished() (<-chan SyncFinished, context.CancelFunc) 
 	// not reading the channel immediately.
 	cq := chanqueue.New[SyncFinished]()
 	ch := cq.In()
-	s.addEventChan <- ch
+	select {
+	case s.addEventChan <- ch:
+	case <-s.closing:
+		// The subscriber is shut down and nothing serves registrations any
+		// more. Hand back a closed channel instead of blocking forever.
+		close(ch)
+	}
 
 	cncl := func() {
 		if ch == nil {
